@@ -34,10 +34,10 @@ RULE += (
 )
 MUST_HIT = ["source_already_partly_consumed", "fractional_durations", "hop_lt_block_same_samples", "empty_visible_with_overlap", "over_reads", "overlap_3_blocks", "max_read_inside_block",
             "visible_shorter_than_block", "rejected", "kind_wav_lazy", "kind_raw_lazy", "kind_stdin", "kind_stdin_pipe",
-            "kind_raw_fifo", "more_than_one_io_buffer", "block_longer_than_65536_samples", "redundant_open_mid_stream"]
+            "kind_raw_fifo", "kind_raw_eager", "kind_wav_eager", "more_than_one_io_buffer", "block_longer_than_65536_samples", "redundant_open_mid_stream"]
 ASSUMPTIONS = ["durations are passed as k/rate; where the exact product lies within 1e-9 of an integer either neighbour is accepted for block/hop size"]
 BOUNDS = {"quick": dict(n=1200, maxN=60), "thorough": dict(n=8000, maxN=400)}
-KINDS = ("bytes", "buffer", "raw_lazy", "wav_lazy", "stdin", "stdin_pipe", "raw_fifo")
+KINDS = ("bytes", "buffer", "raw_lazy", "wav_lazy", "stdin", "stdin_pipe", "raw_fifo", "raw_eager", "wav_eager")
 
 
 class _FifoFeeder:
@@ -180,6 +180,19 @@ def make_input(cfg, data):
         step = max(len(data) // 6, 1)
         feeder = _FifoFeeder(path, data, [step + 1, max(step - 1, 1), 2, step + 2])
         return path, dict(params, large_file=True, audio_format="raw"), [feeder.finish, path]
+    if kind == "raw_eager":
+        path = stem + ".raw"
+        with open(path, "wb") as fp:
+            fp.write(data)
+        return path, dict(params), [path]
+    if kind == "wav_eager":
+        path = stem + ".wav"
+        with wave.open(path, "wb") as fp:
+            fp.setframerate(sr)
+            fp.setsampwidth(sw)
+            fp.setnchannels(ch)
+            fp.writeframes(data)
+        return path, {}, [path]
     if kind == "raw_lazy":
         ext = cfg.get("rawname", ".raw")
         path = stem + ext
